@@ -96,7 +96,29 @@ func etProjects(c *core.Ctx, n, years int) []*gen.Project {
 		o := gen.Opts{Years: years, MinLayers: 2, MaxLayers: 20, ETMethods: []int{et}, Layouts: []int{1, 0, 2}, ColdWinters: i%3 == 0, PolarLat: polar,
 			NoRad: (i%5 >= 3 || i%10 == 6) && et != 1, ShallowGW: i%2 == 0, Drought: i%3 == 1, Schedules: i%2 == 1, HeavyRain: i%6 == 0,
 			Crops: []string{"SM", "WW", "SOY", "ZR", "K", "WRA", "OA", "WG", "SW", "LUP", "WR", "TR", "CCM"}}
+		perennial := i%10 == 4
+		if perennial && o.Years < 3 {
+			o.Years = 3
+		}
 		p := gen.Random(r, fmt.Sprintf("e%d_%d", c.Seed, i), o)
+		if perennial {
+			// a perennial stand (alfalfa, cut grassland) that stays on the field over two winters as ONE rotation entry: it
+			// sprouts again in spring with a shallow rooting depth while the old stand's roots are still on record
+			b, e := p.Rotation[0].Harv, p.Cfg.End
+			y, _, _ := gen.YMD(b)
+			sow := gen.DayNum(y+1, 4, 5+r.Intn(20))
+			if sow < b+10 {
+				sow = b + 10
+			}
+			p.Rotation = append(p.Rotation[:1], gen.RotEntry{Crop: []string{"AA", "GR"}[(i/10)%2], Sow: sow, Harv: e - 20 - r.Intn(30), RexPct: 0})
+			var till []gen.TillEv
+			for _, t := range p.Till {
+				if t.Date < sow-3 {
+					till = append(till, t)
+				}
+			}
+			p.Till = till
+		}
 		if polar && i%4 != 1 {
 			p.Cfg.Lat100 = []int{6700, 6965, 7200, 7800, -6700, -7500}[r.Intn(6)]
 		}
@@ -121,7 +143,7 @@ func etProjects(c *core.Ctx, n, years int) []*gen.Project {
 			p.Soil.GWDm = 1
 			p.Cfg.GWFrom = "soilfile"
 		}
-		p.Arms = []string{fmt.Sprintf("etpot=%d cold=%v polar=%v lat=%d norad=%v waterlogged=%v", p.Cfg.ETpot, o.ColdWinters, o.PolarLat, p.Cfg.Lat100, o.NoRad, waterlogged)}
+		p.Arms = []string{fmt.Sprintf("etpot=%d cold=%v polar=%v lat=%d norad=%v waterlogged=%v perennial=%v", p.Cfg.ETpot, o.ColdWinters, o.PolarLat, p.Cfg.Lat100, o.NoRad, waterlogged, perennial)}
 		ps = append(ps, p)
 	}
 	return ps
